@@ -292,6 +292,25 @@ INT_TYPE(uint64_t, u64)
 INT_TYPE(long long, ll)
 INT_TYPE(unsigned long long, ull)
 
+// (fixed * __int128 is ill-formed - brace narrowing in fixed_multiply_scalar - so only /, +, conversion are wrapped)
+// __int128: an integral type for the library only in GNU dialects (std::is_integral_v<__int128> is false under
+// __STRICT_ANSI__). The operand is encoded in the second wrapper argument: n = (b >> 8) * 2^(b & 0x7f), shift <= 70.
+#if defined(__SIZEOF_INT128__) && !defined(__STRICT_ANSI__)
+#define VERIF_HAVE_I128 1
+namespace { constexpr __int128 arg_i128(int64_t b) noexcept { int sh = static_cast<int>(b & 0x7f); if(sh > 70) sh = 70; return static_cast<__int128>(b >> 8) * (static_cast<__int128>(1) << sh); } }
+W(i128_supported) { (void)a; UNUSED_B; return 1; }
+W(div_fi128) { return (as_fixed(a) / arg_i128(b)).v; }
+W(diveq_fi128) { fixed_t x{as_fixed(a)}; x /= arg_i128(b); return x.v; }
+W(add_fi128) { return (as_fixed(a) + arg_i128(b)).v; }
+W(ctor_i128) { (void)a; return fixed_t{arg_i128(b)}.v; }
+#else
+W(i128_supported) { (void)a; UNUSED_B; return 0; }
+W(div_fi128) { (void)a; UNUSED_B; return 0; }
+W(diveq_fi128) { (void)a; UNUSED_B; return 0; }
+W(add_fi128) { (void)a; UNUSED_B; return 0; }
+W(ctor_i128) { (void)a; UNUSED_B; return 0; }
+#endif
+
 // float: everything incl. compound assignment
 CONV_COMMON(float, f32)
 W(fp2f_f32) { UNUSED_B; return floating_point_to_fixed(arg<float>(a)).v; }
@@ -347,6 +366,7 @@ extern "C" const w_entry w_entries[] = {
   E(sin_angle_aprox) E(cos_angle_aprox) E(sqrt_aprox) E(hypot_aprox) E(atan_index_aprox) E(atan_aprox)
   E(sin_angle_tab) E(cos_angle_tab) E(tan_tab) E(square_root_tab)
   E(udl_int) E(udl_float) E(ostream)
+  E(i128_supported) E(div_fi128) E(diveq_fi128) E(add_fi128) E(ctor_i128)
   E_INT(i8) E_INT(i16) E_INT(i32) E_INT(i64) E_INT(u8) E_INT(u16) E_INT(u32) E_INT(u64) E_INT(ll) E_INT(ull)
   E_COMMON(f32) E(fp2f_f32) E(f2fp_f32) E_EQ(f32)
   E(ctor_f64) E(a2f_f64) E(mkf_f64) E(cast_f64) E(f2a_f64) E(fp2f_f64) E(f2fp_f64) E_MIXED(f64)
